@@ -202,6 +202,27 @@ where
                 Err(e) => reads::fail(format!("get_any_or_read_at({i}) failed: {e}"))?,
             }
         }
+        // the holed range read: Some / None per slot, clamped like every other range read
+        st.reads += 2;
+        let want: Vec<Option<V::T>> = if from.min(len) < to.min(len) { m.items[from.min(len)..to.min(len)].to_vec() } else { vec![] };
+        match raw.r_collect_holed_range(from, to) {
+            Ok(got) => {
+                if got.len() != want.len() || got.iter().zip(&want).any(|(g, w)| !crate::vecmodel::same_opt(g, w)) {
+                    reads::fail(format!(
+                        "collect_holed_range({from}, {to}) returned {} slots {:?}.., reference holds {} slots {:?}..",
+                        got.len(),
+                        got.iter().take(6).map(|x| x.as_ref().map(|v| v.show())).collect::<Vec<_>>(),
+                        want.len(),
+                        want.iter().take(6).map(|x| x.as_ref().map(|v| v.show())).collect::<Vec<_>>()
+                    ))?;
+                }
+            }
+            Err(e) => reads::fail(format!("collect_holed_range({from}, {to}) failed: {e}"))?,
+        }
+        let first_empty = m.items.iter().position(|x| x.is_none()).unwrap_or(len);
+        if raw.r_first_empty_index() != first_empty {
+            reads::fail(format!("get_first_empty_index() returned {}, the first deleted slot / the length is {first_empty}", raw.r_first_empty_index()))?;
+        }
     }
 
     // 2. stored-only views: read-only clones, boxed clones, cached wrapper, point readers, stored scans.
@@ -277,6 +298,12 @@ where
                 }
             } else if i >= len && raw.r_read_at_once(i).is_ok() {
                 reads::fail(format!("read_at_once({i}) beyond len {len} returned a value"))?;
+            }
+            // buffered-or-stored point read (ignores the overlays by contract: compared in the clean state only)
+            if let Some(got) = raw.r_get_pushed_or_read_at(i) {
+                if !crate::vecmodel::same_opt(&got, &view.at(i)) {
+                    reads::fail(format!("get_pushed_or_read_at({i}) returned {:?}, reference holds {:?}", got.map(|x| x.show()), view.at(i).map(|x| x.show())))?;
+                }
             }
         }
     }
